@@ -240,6 +240,14 @@ def B3_assign_pipeline(repo, clause):
         uname = uniq.targets[0].id
         # 4. per-term type id = index of its key in the unique list
         ty = [n for n in fn.own_nodes() if isinstance(n, ast.Assign) and isinstance(n.targets[0], ast.Attribute) and n.targets[0].attr == k + "_types"]
+        # every result is stored on the structure that was passed in (first parameter)
+        for st_ in [n for n in fn.own_nodes() if isinstance(n, ast.Assign) and isinstance(n.targets[0], ast.Attribute) and isinstance(n.targets[0].value, ast.Name)
+                    and n.targets[0].attr in (k + "_types", k + "_type_coeffs", attr)]:
+            recv = st_.targets[0].value.id
+            obs.append(Ob("B3", clause, fn, st_, recv == fn.params[0],
+                          "%s.%s is stored on %s" % (recv, st_.targets[0].attr, "the structure argument" if recv == fn.params[0] else
+                                                     "`%s`, which is NOT the structure (first parameter `%s`)" % (recv, fn.params[0])),
+                          slot="%s:receiver:%s" % (k, st_.targets[0].attr), positive=True))
         ok = False
         if len(ty) == 1 and isinstance(ty[0].value, ast.ListComp):
             l2 = ty[0].value
